@@ -320,9 +320,15 @@ Section Render.
         heat_rows (S i) (fst x) mn mx cc rest (set_nth (2 + i) (snd x) tm)
     end.
 
-  (* Heatmap.WriteTable (FixedMin/FixedMax off) *)
-  Definition heat_write_table (rlim clim : nat) (h : hm) (tm : term) (a : agg) : option (result (hm * term)) :=
-    match heat_legend (hm_w h) (a_min a) (a_max a) with
+  (* Heatmap.UpdateMinMax: the legend for the range, with the scaler and formatter in force *)
+  Definition heat_update_minmax (h : hm) (tm : term) (mn mx : Z) : result term :=
+    leg <- heat_legend (hm_w h) mn mx ;; Ok (set_nth 0 leg tm).
+
+  (* Heatmap.WriteTable for the range [mn, mx] that UpdateMinMaxFromData settles on (the data's
+     own min/max, or the fixed bounds) *)
+  Definition heat_write_table_rng (mn mx : Z) (rlim clim : nat) (h : hm) (tm : term) (a : agg)
+    : option (result (hm * term)) :=
+    match heat_legend (hm_w h) mn mx with
     | Panic => Some Panic
     | Ok leg =>
         let tm0 := set_nth 0 leg tm in
@@ -332,7 +338,7 @@ Section Render.
         | Some (Ok (cc, hdr)) =>
             let tm1 := set_nth 1 hdr tm0 in
             let rc := Nat.min (length (a_rows a)) rlim in
-            match heat_rows 0 (hm_w h) (a_min a) (a_max a) cc (firstn rc (a_rows a)) tm1 with
+            match heat_rows 0 (hm_w h) mn mx cc (firstn rc (a_rows a)) tm1 with
             | Panic => Some Panic
             | Ok (w', tm2) =>
                 if (rc <? length (a_rows a))%nat
@@ -341,6 +347,9 @@ Section Render.
             end
         end
     end.
+  (* FixedMin / FixedMax off *)
+  Definition heat_write_table (rlim clim : nat) (h : hm) (tm : term) (a : agg) : option (result (hm * term)) :=
+    heat_write_table_rng (a_min a) (a_max a) rlim clim h tm a.
 
   (* ---------- spark.go (repaired #16: no displayed column) ---------- *)
   Definition s_First : str := [70; 105; 114; 115; 116]%N.
